@@ -126,6 +126,16 @@ func newPlan(quick bool) *plan {
 		}
 	}
 	p.prettySm, p.prettyFull = mk([]wd{{80, 3}, {8, 1}, {20, 2}}), mk(full)
+	// every vector again with the float verb set explicitly
+	withVerb := func(vs []optVec) []optVec {
+		out := append([]optVec{}, vs...)
+		for _, v := range vs {
+			v.FloatFormat = "%g"
+			out = append(out, v)
+		}
+		return out
+	}
+	p.senVecs, p.prettySm, p.prettyFull = withVerb(p.senVecs), withVerb(p.prettySm), withVerb(p.prettyFull)
 	p.wls = []int{1, 1024}
 	if !quick {
 		p.wls = []int{1, 2, 3, 7, 64, 1024}
@@ -614,6 +624,7 @@ func (r *runner) minimise(e *entry, t any, ov optVec, core string, multi bool) o
 	try(func(o *optVec) { o.Indent = 0 })
 	try(func(o *optVec) { o.Sort = false })
 	try(func(o *optVec) { o.HTMLUnsafe = true })
+	try(func(o *optVec) { o.FloatFormat = "" })
 	if e.pretty {
 		try(func(o *optVec) { o.Align = false })
 		try(func(o *optVec) { o.Width = 80 })
@@ -663,6 +674,7 @@ func optLabels(e *entry, o *optVec) string {
 	add(o.Indent > 0, "indent")
 	add(o.Sort, "sort")
 	add(!o.HTMLUnsafe, "htmlsafe")
+	add(o.FloatFormat != "", "floatformat")
 	if e.pretty {
 		add(o.Align, "align")
 		add(o.Width != 0 && o.Width < 80, "width<80")
